@@ -280,6 +280,18 @@ CMPOPS = {ast.Eq: operator.eq, ast.NotEq: operator.ne, ast.Lt: operator.lt, ast.
 GATE_METHODS = {"h", "s", "sdg", "x", "y", "z", "cx", "cz", "swap", "id", "cy", "ccx", "t", "tdg", "sx"}
 
 
+def _is_generator(fnode):
+    todo = list(fnode.body)
+    while todo:
+        n = todo.pop()
+        if isinstance(n, (ast.Yield, ast.YieldFrom)):
+            return True
+        if isinstance(n, (ast.FunctionDef, ast.AsyncFunctionDef, ast.Lambda, ast.ClassDef)):
+            continue
+        todo.extend(ast.iter_child_nodes(n))
+    return False
+
+
 class CE:
     def __init__(self, prog: pyfacts.Program, max_steps=2_000_000):
         self.prog = prog
@@ -300,6 +312,9 @@ class CE:
 
     # --- functions ----------------------------------------------------------------------
     def call_func(self, f, args, kwargs, closure=None):
+        stub = getattr(self, "stubs", {}).get(f.fq)
+        if stub is not None:
+            return stub(*args, **kwargs)
         a = f.node.args
         params = [x.arg for x in a.posonlyargs + a.args]
         defaults = [None] * (len(params) - len(a.defaults)) + list(a.defaults)
@@ -324,6 +339,14 @@ class CE:
                 env[ko.arg] = self.ev(kd, {}, f)
         if kwargs:
             raise CERaise("TypeError", f"{f.fq}() got unexpected keyword {sorted(kwargs)}")
+        if _is_generator(f.node):
+            # a generator function is evaluated eagerly into the list of what it yields (pure code: same elements)
+            env["__yields__"] = []
+            try:
+                self.block(f.node.body, env, f)
+            except _Ret:
+                pass
+            return env["__yields__"]
         try:
             self.block(f.node.body, env, f)
         except _Ret as r:
@@ -539,6 +562,13 @@ class CE:
 
     # --- expressions --------------------------------------------------------------------
     def ev(self, e, env, f):
+        try:
+            return self._ev(e, env, f)
+        except (TypeError, ValueError, AttributeError, IndexError, KeyError, ZeroDivisionError, RecursionError) as ex:
+            # an idiom the emulation does not model shows up as an exception of the emulation itself: no verdict
+            raise Unsupported(f"expression `{ast.unparse(e)[:80]}` at {pyfacts.where(f, e)}: not modelled by the evaluator ({type(ex).__name__}: {str(ex)[:80]})")
+
+    def _ev(self, e, env, f):
         self.tick(e, f)
         t = type(e)
         if t is ast.Constant:
@@ -644,6 +674,12 @@ class CE:
             return out
         if t is ast.Lambda:
             return ("lambda", e, dict(env), f)
+        if t is ast.Yield and "__yields__" in env:
+            env["__yields__"].append(self.ev(e.value, env, f) if e.value is not None else None)
+            return None
+        if t is ast.YieldFrom and "__yields__" in env:
+            env["__yields__"].extend(self.iterate(self.ev(e.value, env, f)))
+            return None
         if t is ast.Starred:
             return self.ev(e.value, env, f)
         raise Unsupported(f"expression {t.__name__} at {pyfacts.where(f, e)}")
@@ -683,6 +719,14 @@ class CE:
             return Mat([[sum(x * y for x, y in zip(r, c)) for c in bt] for r in a.d], 2)
         if isinstance(a, Mat) and isinstance(b, Mat) and a.ndim == 2 and b.ndim == 1:
             return Mat([sum(x * y for x, y in zip(r, b.d)) for r in a.d], 1)
+        if isinstance(a, Mat) and isinstance(b, Mat) and a.ndim == 1 and b.ndim == 2:
+            if len(a.d) != len(b.d):
+                raise CERaise("ValueError", "matmul: shapes do not match")
+            return Mat([sum(x * row[j] for x, row in zip(a.d, b.d)) for j in range(len(b.d[0]) if b.d else 0)], 1)
+        if isinstance(a, Mat) and isinstance(b, Mat) and a.ndim == 1 and b.ndim == 1:
+            if len(a.d) != len(b.d):
+                raise CERaise("ValueError", "matmul: shapes do not match")
+            return sum(x * y for x, y in zip(a.d, b.d))
         raise Unsupported("matmul operands")
 
     def cmp(self, op, a, b):
@@ -785,6 +829,8 @@ class CE:
             return ("recmethod", o, attr)
         if isinstance(o, tuple) and o and o[0] == "respath":
             return ("respath-method", o, attr)
+        if o == ("logger",):
+            return ("loggermethod", attr)
         if isinstance(o, (re.Pattern, re.Match)):
             if isinstance(o, re.Match) and attr in ("string", "pos", "endpos", "lastindex", "lastgroup"):
                 return getattr(o, attr)
@@ -852,6 +898,15 @@ class CE:
             for p, a in zip([x.arg for x in node.args.args], args):
                 en[p] = a
             return self.ev(node.body, en, cf)
+        if isinstance(fn, tuple) and fn and fn[0] == "loggermethod":
+            # logging never changes a result: handlers are outside the evaluated fragment
+            if fn[1] in ("debug", "info", "warning", "error", "exception", "critical", "log", "setLevel", "addHandler"):
+                return None
+            if fn[1] == "isEnabledFor":
+                return False
+            if fn[1] == "getChild":
+                return ("logger",)
+            raise Unsupported(f"logger method {fn[1]}")
         if isinstance(fn, tuple) and fn and fn[0] == "matmethod":
             return self.mat_method(fn[1], fn[2], args, kwargs)
         if isinstance(fn, tuple) and fn and fn[0] == "recmethod":
@@ -979,6 +1034,8 @@ class CE:
             return list(itertools.combinations(list(self.iterate(args[0])), args[1]))
         if dotted.startswith("numpy."):
             return self.call_numpy(name, args, kwargs, e, f)
+        if dotted == "logging.getLogger":
+            return ("logger",)
         if dotted in ("re.compile", "re.match", "re.fullmatch", "re.search", "re.findall", "re.finditer", "re.split", "re.sub", "re.escape"):
             # regular expressions over constant strings: pure, evaluated exactly
             if not all(isinstance(a, (str, int, re.Pattern, re.RegexFlag)) for a in list(args) + list(kwargs.values())):
@@ -1017,6 +1074,9 @@ class CE:
         raise Unsupported(f"external call {dotted} at {pyfacts.where(f, e)}")
 
     def call_numpy(self, name, args, kwargs, e, f):
+        if name not in ("fill_diagonal", "copyto", "put"):
+            # reading functions see a row view as the vector it shows
+            args = [Mat(list(a.row()), 1) if isinstance(a, RowView) else a for a in args]
         if name in ("zeros",):
             shape = kwargs.get("shape", args[0] if args else None)
             return Mat.zeros(tuple(shape) if isinstance(shape, (list, tuple)) else shape)
@@ -1042,9 +1102,26 @@ class CE:
         if name == "sum":
             a = args[0]
             return sum(a.flat()) if isinstance(a, Mat) else sum(self.iterate(a))
-        if name == "any":
+        if name in ("any", "all"):
             a = args[0]
-            return any(a.flat()) if isinstance(a, Mat) else bool(a)
+            fn = any if name == "any" else all
+            if isinstance(a, Mat):
+                ax = kwargs.get("axis", args[1] if len(args) > 1 else None)
+                if ax is None:
+                    return fn(a.flat())
+                if a.ndim == 2 and ax in (1, -1):
+                    r = Mat([int(fn(row)) for row in a.d], 1)
+                elif a.ndim == 2 and ax == 0:
+                    r = Mat([int(fn(col)) for col in zip(*a.d)], 1)
+                else:
+                    raise Unsupported(f"numpy.{name} with axis={ax}")
+                r.is_bool = True
+                return r
+            if isinstance(a, (list, tuple)):
+                return fn(self.truth(x) for x in a)
+            if isinstance(a, (int, bool)):
+                return bool(a)
+            raise Unsupported(f"numpy.{name} of {type(a).__name__}")
         if name == "array_equal":
             a, b = args
             return isinstance(a, Mat) and isinstance(b, Mat) and a.d == b.d
